@@ -83,6 +83,41 @@ PROPS["C11"] = {
     "level_note": "Trusted: Verus/Z3, Kani/CBMC; extraction rewrites R1 (dropped String/PathBuf fields), R2 (continue), R5 (indexed iteration), R3 (u64::div_ceil spec, cross-checked by Kani); footer contents are the file's.",
 }
 
+# ------------------------------------------------------------------ C33
+MEM = "execution::memory"
+PROPS["C33"] = {
+    "files": ["verus/c33_pool.vrs", "kani/memory.rs"],
+    "level": "proof",
+    "explanation": "Concurrency by reduction to atomic steps. Verus (bodies of try_allocate/allocate/used/available/release/resize/Drop::drop copied verbatim, AtomicUsize as a carrier whose "
+                   "contracts are the interference model: loads return anything, CAS may fail arbitrarily, every atomic write has a call-site precondition) proves that each method can only issue the "
+                   "atomic writes its contract permits: try_allocate only a CAS c -> c+size with c+size <= max_memory and no wrap (the grant condition holds at the linearisation point, no TOCTOU), "
+                   "allocate only fetch_add(size), release/drop only fetch_sub(self.size), resize only the signed difference. Kani proves on the real atomics, from an arbitrary pool state, "
+                   "that each method's net effect is used' = used +- size (inductive step of J: used == sum of live reservations) and that a life cycle returns used to its start.",
+    "kani": [
+        H(MEM, "c33_k_try_allocate_step", "MemoryPool::try_allocate", "from any (used,max): Some iff used+size <= max without wrap, then used'=used+size and reservation.size==size; None leaves used unchanged"),
+        H(MEM, "c33_k_allocate_step", "MemoryPool::allocate", "used' = used + size; reservation.size == size"),
+        H(MEM, "c33_k_drop_step", "MemoryReservation::drop / MemoryPool::release", "used' = used - size exactly once (pre: used >= size, from J)"),
+        H(MEM, "c33_k_resize_step", "MemoryReservation::resize", "used' = used - old + new; size' = new"),
+        H(MEM, "c33_k_reads", "MemoryPool::{used,max,available}", "pure reads; available == max.saturating_sub(used)"),
+        H(MEM, "c33_k_lifecycle_returns_to_start", "try_allocate -> resize -> allocate -> drop -> drop", "used returns to its initial value; intermediate values are the sums of live reservations"),
+    ],
+    "verus": [
+        V("c33_pool", "MemoryPool::{try_allocate,allocate,used,available,release}, MemoryReservation::{resize,drop}",
+          "under arbitrary interference each method issues only the atomic writes its contract permits (CAS c->c+size<=max for try_allocate; fetch_add(size); fetch_sub(size); signed difference for resize); Some(r) ==> r.size == size",
+          twin=[f"{MEM}::verif_kani::c33_k_try_allocate_step", f"{MEM}::verif_kani::c33_k_resize_step", f"{MEM}::verif_kani::c33_k_drop_step", f"{MEM}::verif_kani::c33_k_allocate_step"]),
+    ],
+    "trusted_base": [
+        "carrier contracts on std::sync::atomic::AtomicUsize (R6): atomics are linearizable SeqCst RMWs; a successful compare_exchange_weak means the cell held `current` and now holds `new`",
+        "R1: field `spilled` of MemoryPool dropped (independent counter)",
+        "composition (pen and paper): every step preserves J at its linearisation point; straight-line methods issue the same writes under any interleaving and fetch_add/fetch_sub commute",
+    ],
+    "not_under_contract": ["memory orderings weaker than atomicity", "termination of the CAS loop (lock-free, not wait-free)", "record_spill/spilled"],
+    "assumptions": ["atomics are linearizable (SeqCst read-modify-write)"],
+    "technique": "Verus on the verbatim method bodies with atomics as a carrier type (call-site preconditions on every atomic write = linearisation-point argument) + Kani inductive steps on the real atomics",
+    "level_text": "Deductive for every interleaving by reduction: no schedule is enumerated; each method is proved, for all stale loads and failing CASes, to issue only justified atomic writes, and each write's net effect is proved for all pool states.",
+    "level_note": "Trusted: Verus/Z3, Kani/CBMC; the carrier contracts of AtomicUsize (atomicity, CAS success semantics); the composition argument over steps is pen and paper.",
+}
+
 
 def claimed():
     return sorted(PROPS)
